@@ -441,7 +441,15 @@ func NewResolver(groups []*Group, services []*Service) *Resolver {
 	return r
 }
 
+// ExternalGroup is a group with the Netspoc prefix that is maintained
+// outside Netspoc (rules from a raw file refer to it, nobody defines it in
+// the target): compared by its path, never by content.
+const ExternalGroup = "Netspoc-ext-hosts"
+
 func (rs *Resolver) member(e string) string {
+	if e == GroupPath+ExternalGroup {
+		return e
+	}
 	if id, ok := strings.CutPrefix(e, GroupPath); ok {
 		if g := rs.Groups[id]; g != nil && strings.HasPrefix(id, "Netspoc") {
 			var l []string
